@@ -13,7 +13,9 @@ from . import C17 as FI
 RULE = ("generated programs over all stock scheduling / selection / statistic / weighting / rebalancing algos of the generator (incl. lookback "
         "and lag windows, WeighTarget / SelectWhere / SetStat frames, nested trees, fixed-income programs); cut date uniform over the index; "
         "perturbations: NaN, x10, sign flip, fresh random, dropped rows; histories up to the cut compared bit for bit (runs that raise after "
-        "the cut are compared on what they recorded). distinct = (program shape, perturbation mode, cut position class)")
+        "the cut are compared on what they recorded); parents whose own stack opens sub-strategies mid-run (setup_from_parent) after reading the "
+        "universe of the date, then SelectHasData / weigher / Rebalance, with recently listed names suspended, re-listed or repriced after the cut. "
+        "distinct = (program shape, perturbation mode, cut position class)")
 ASSUMPTIONS = ["external kernels (ffn, scipy) are deterministic functions of the frames they are handed"]
 
 
@@ -465,7 +467,7 @@ def gen_plan(rng, dates):
 
 def run(ctx, bt, scale=1):
     # sub-strategies opened by the parent's own stack mid-run, followed on the same date by an open-ended window reader
-    dynamic_twin_cases(ctx, bt, ctx.scale(36, 800) * scale)
+    dynamic_twin_cases(ctx, bt, ctx.scale(30, 800) * scale)
     for _ in range(ctx.scale(110, 3000) * scale):
         spec = R.gen_run_spec(ctx.rng)
         spec["perturb_plan"] = gen_plan(ctx.rng, spec["dates"])
